@@ -425,6 +425,96 @@ def run_coupler(case):
 
 
 # ------------------------------------------------------------------------------------------------------
+# stage 3b: a coupled member whose state changes length in postProcess (as the population balance does when it adds or
+# merges size classes); the solver documents that the reference shape is refreshed on every iteration
+
+def run_coupler_regrid(case):
+    sib, pos, mode, at, it, ncalls = case['sibling'], case['pos'], case['mode'], case['at'], case['it'], case['calls']
+    viol = []
+    sigbase = 'coupler-regrid/%s/pos=%d/%s/at=%s/it=%s/calls=%d' % (sib, pos, mode, ','.join(map(str, at)), it, ncalls)
+
+    def bad(kind, msg):
+        viol.append({'sig': 'coupler-regrid/%s/%s/it=%s' % (kind, mode, it), 'msg': '%s: %s' % (sigbase, msg)})
+
+    class Regrid(ScriptModel):
+        def __init__(self):
+            super().__init__(0.0, [], None, 200, layout=[np.array([1.0, 2.0, 3.0, 4.0])])
+            self.X = [np.array([1.0, 2.0, 3.0, 4.0])]
+            self.bad_struct = []
+            self.nsteps = 0
+
+        def getdXdt(self, t, x):
+            if _describe(x) != _describe(self.X):
+                self.bad_struct.append(('getdXdt', _describe(x), _describe(self.X)))
+            return [-0.5 * np.asarray(x[0])]
+
+        def correctdXdt(self, dt, x, dXdt):
+            if _describe(x) != _describe(self.X) or _describe(dXdt) != _describe(self.X):
+                self.bad_struct.append(('correctdXdt', _describe(x), _describe(dXdt), _describe(self.X)))
+
+        def postProcess(self, time, x):
+            if _describe(x) != _describe(self.X):
+                self.bad_struct.append(('postProcess', _describe(x), _describe(self.X)))
+            self.nsteps += 1
+            self.times.append(time)
+            self.t = time
+            v = np.asarray(x[0], dtype=float)
+            if self.nsteps in at:
+                v = np.append(v, 1.0) if mode == 'grow' else v[:-1]
+            self.X = [v]
+            return self.X, False
+
+    members = []
+    for j in range(2 if sib != 'two' else 3):
+        if j == pos:
+            members.append(Regrid())
+        else:
+            X0 = _mk_layout('scalar+vec3' if sib != 'vec' else 'vec2+vec1+scalar')
+            mm = ScriptModel(0.0, [], None, 200, layout=X0)
+            mm.X = X0
+            mm.off = 3 * j
+            mm.struct0 = _describe(X0)
+            mm.getdXdt = (lambda mm_: (lambda t, x: (mm_.dxdt_calls.append((t, _describe(x))) or
+                                                      [(-0.5 - 0.25 * (i + mm_.off)) * np.asarray(xi) * 1.0
+                                                       for i, xi in enumerate(x)])))(mm)
+            members.append(mm)
+    for mm in members:
+        mm._minf, mm._maxf = 0.05, 0.2
+    x0 = [[np.array(x, copy=True) for x in mm.X] for mm in members]
+    c = Coupler(members)
+    try:
+        for _ in range(ncalls):
+            c.solve(1.0, solverType=_iterator(it, []), minDtFrac=0.05, maxDtFrac=0.2)
+    except Exception as e:
+        bad('exception', '%s: %s' % (type(e).__name__, e))
+        return {'viol': viol, 'states': 0, 'outcome': 'exception'}
+    ctimes = list(c.time[1:])
+    if not ctimes or ctimes[-1] != float(ncalls):
+        bad('end-time', 'coupler ended at %r, expected %r' % (ctimes[-1] if ctimes else None, float(ncalls)))
+    if any(b <= a for a, b in zip([0.0] + ctimes[:-1], ctimes)):
+        bad('not-increasing', repr(ctimes[:8]))
+    for j, mm in enumerate(members):
+        if j == pos:
+            if mm.bad_struct:
+                bad('structure', 'regridding member saw %r' % (mm.bad_struct[0],))
+            want_len = 4 + (len(at) if mode == 'grow' else -len(at))
+            if len(mm.X[0]) != want_len:
+                bad('final-length', 'regridding member ends with %d entries, expected %d' % (len(mm.X[0]), want_len))
+        else:
+            for t, d in mm.dxdt_calls:
+                if d != mm.struct0:
+                    bad('sibling-structure', 'sibling %d got %r expected %r' % (j, d, mm.struct0))
+                    break
+            # sibling values against the reference integrator (its dynamics do not depend on the regridding member)
+            dts = [b - a for a, b in zip([0.0] + ctimes[:-1], ctimes)]
+            refs = ref_integrate(_flat(x0[j]), _coefs(x0[j], mm.off), dts, it)
+            got = _flat(mm.X)
+            if refs and not np.allclose(got, refs[-1], rtol=1e-9, atol=0):
+                bad('sibling-values', 'sibling %d final %r vs reference %r' % (j, got, refs[-1]))
+    return {'viol': viol, 'states': len(ctimes), 'transitions': len(ctimes) * len(members), 'outcome': 'steps=%d' % len(ctimes)}
+
+
+# ------------------------------------------------------------------------------------------------------
 # stage 4 (engine E5): TLA+ model of the clock protocol checked by TLC; EVERY behaviour of the model (all paths of the
 # dumped, acyclic state graph) is replayed against the real solver with dyadic tick sizes so that float arithmetic is exact
 
@@ -587,6 +677,16 @@ def run(ctx):
                 for drv in range(len(g)):
                     ccases.append({'layouts': list(g), 'it': it, 'script': sc, 'fracs': [0.05, 0.5], 'driver': drv})
     ctx.product_run('coupler', 'checks.c05:run_coupler', ccases)
+
+    rcases = []
+    for sib in ['mixed', 'vec', 'two']:
+        for pos in ([0, 1] if sib != 'two' else [0, 1, 2]):
+            for mode in ['grow', 'shrink']:
+                for at in ([[1], [2], [1, 3]] if quick else [[1], [2], [3], [1, 3], [1, 2, 3]]):
+                    for it in ['euler', 'rk4']:
+                        for calls in [1, 2]:
+                            rcases.append({'sibling': sib, 'pos': pos, 'mode': mode, 'at': at, 'it': it, 'calls': calls})
+    ctx.product_run('coupler-regrid', 'checks.c05:run_coupler_regrid', rcases)
 
     # E5: TLC-checked model, all behaviours replayed on the implementation
     res = ctx.product_run('tla', 'checks.c05:run_tla', [{'cfg': c} for c in (TLA_CFGS[:3] if quick else TLA_CFGS)], chunksize=1)
